@@ -74,3 +74,8 @@ pub fn vx_async_std_timeout<R>(d: Duration, fut: ExtFut<R>) -> (r: Ctl<Result<R,
         r matches Ctl::Done(Err(_)) ==> !fut.completes(),
         r is Unwind ==> !fut.completes(),
 { unimplemented!() }
+// tokio::task::try_id(): the id of the current task, if the caller runs inside one (arbitrary here)
+#[verifier::external_body]
+pub struct TaskId { _p: () }
+#[verifier::external_body]
+pub fn vx_tokio_try_id() -> (r: Option<TaskId>) { unimplemented!() }
